@@ -26,6 +26,18 @@ def bar_scenarios(rng, n):
                     op['gen_tail'] = rng.choice([0.15, 0.3, 0.6])
                     op['gen_pause'] = rng.choice([0.0, 0.02, 0.15])
                     op['dur'] = {'kind': 'hash', 'salt': rng.randint(0, 99), 'unit': rng.choice([0.0, 0.01, 0.05])}
+        if rng.random() < .15:
+            # apply tasks are in flight on the kept-alive workers while the next call shows its bar: they are not its work items
+            sc['pool']['keep_alive'] = True
+            sc['pool'].pop('order_tasks', None)
+            k = rng.randint(1, 3)
+            first = {'op': 'map', 'n': rng.randint(2, 6), 'chunk_size': 1, 'progress_bar': True, 'elem': 'scalar'}
+            nxt = {'op': rng.choice(['map', 'imap']), 'n': rng.randint(3, 8), 'chunk_size': 1, 'progress_bar': True, 'elem': 'scalar',
+                   'dur': {'kind': 'hash', 'salt': rng.randint(0, 99), 'unit': 0.02}}
+            sc['ops'] = [first, {'op': 'apply_batch', 'defer_wait': True, 'tasks': [{'idx': i} for i in range(k)], 'get_timeout': 30,
+                                 'dur': {'kind': 'map', 'map': {}, 'default': rng.choice([0.05, 0.2])}}, nxt, {'op': 'apply_collect', 'of': 1}]
+            sc['same_func'] = False
+            sc['all_valid'] = True
         scs.append(sc)
     return scs
 
